@@ -130,6 +130,11 @@ var enumKinds = map[string]map[byte][]string{
 	"C12": {'A': {"404", "409", "exists", "410", "422", "500", "503", "504", "neterr", "lost"}, 'H': {"500", "429", "refused", "stall", "garbage"}},
 }
 
+// fault kinds that are also enumerated "twice in a row" (FaultPlan.Again)
+var againKinds = map[string]map[string]bool{
+	"C09": {"crash-before": true, "crash-after": true, "500": true, "lost": true},
+}
+
 type RunLine struct {
 	Start        *int              `json:"start,omitempty"`
 	Recycle      bool              `json:"recycle,omitempty"`
@@ -564,6 +569,9 @@ func cmdRun(args []string) {
 		// fault enumeration: reference runs first, then one run per (position, kind)
 		nref := max(2, tc.runs/25)
 		budget := tc.runs * 5
+		if againKinds[*prop] != nil {
+			budget = tc.runs * 7
+		}
 		var refs []Job
 		for r := 0; r < nref; r++ {
 			refs = append(refs, Job{ID: r, Seed: seed, Run: r, Ref: true})
@@ -581,6 +589,13 @@ func cmdRun(args []string) {
 				for _, k := range kinds[l.Interactions[pos]] {
 					vs = append(vs, Job{ID: id, Seed: seed, Run: l.Run, Pos: pos, Kind: k})
 					id++
+					if l.Interactions[pos] == 'A' && againKinds[*prop][k] {
+						// the same fault twice in a row: at this position and at the next
+						// request of the same method and path
+						vs = append(vs, Job{ID: id, Seed: seed, Run: l.Run, Pos: pos, Kind: k + "+again"})
+						id++
+						enumStats["twice_in_a_row_variants"]++
+					}
 				}
 			}
 			if len(variants)+len(vs) > budget {
